@@ -94,6 +94,10 @@ fn summarize(ctx: &mut Ctx, h: &History) {
 
 fn process(ctx: &mut Ctx, h: &History, case: &str, seed: u64) {
     summarize(ctx, h);
+    if ctx.cases <= 2 && !h.events.is_empty() {
+        let upto = h.events.len().min(12) - 1;
+        ctx.sample_note(&format!("recorded event log of {} (first events): {}", case, chainlog::fmt_log(&h.events, upto)));
+    }
     match ctx.prop.as_str() {
         "C13" => {
             let mut found: Vec<(String, usize, String)> = Vec::new();
